@@ -1135,6 +1135,20 @@ def proxy_request(rng, with_body=True):
     return head, body
 
 
+# what the upstream server says while the client is still sending, as a list of writes
+EARLY_ANSWERS = [
+    [b"HTTP/1.1 100 Continue\r\n\r\n"], [b"HTTP/1.1 200 OK\r\nX-Up: v\r\n\r\npartial"], [b"HTTP/1.0 500 Oops\r\n\r\n"], [b"HTTP/1.1 200 OK\r\n"],
+    [b"HTTP/1.1 100 Continue\r\n\r\n"], [b"HTTP/1.1 200 OK\r\nX-Up: v\r\n\r\npartial"],
+    [b"HTTP/1.1 200 OK\r\n", b"X-Up: v\r\n\r\nrest"], [b"HTTP/1.1 100 Continue\r\n\r", b"\n"], [b"HTTP/1.1 204 No Content\r\n\r\n", b"more", b"and more"],
+    [b"HTTP/1.1 100 Continue\r\n\r\n", b"HTTP/1.1 200 OK\r\n\r\n"],
+    # refused by Parser::parseResponseHeaders: 502, the client's socket is closed
+    [b"garbage\r\n\r\n"], [b"HTTP/1.1 abc Bad\r\n\r\n"], [b"HTTP/1.1 99 Low\r\n\r\nbody"], [b"HTTP/1.1 200 OK\r\nNoColonLine\r\n\r\n"],
+    [b"HTTP/1.1 200\r\n\r\n"], [b"bad\r\n", b"\r\n", b"late"], [b"\r\n\r\nHTTP/1.1 200 OK\r\n\r\n"],
+    # a refused head first, a good one later: the first blank line decides
+    [b"junk\r\n\r\n", b"HTTP/1.1 200 OK\r\n\r\n"],
+]
+
+
 def gen_C12(rng, count, tier):
     for i in range(count):
         head, body = proxy_request(rng)
@@ -1146,14 +1160,22 @@ def gen_C12(rng, count, tier):
         # turns between segments decide whether body bytes arrive before or after `connected`
         # the upstream server may begin to answer (interim response, early error, streaming endpoint) before the
         # client has sent the whole body: what the client sends afterwards is still the request
-        early = rng.randrange(len(segs)) if len(segs) > 1 and rng.random() < 0.3 else None
+        # The answer may come in pieces (a head cut across two writes, data after the head) and may begin before the
+        # upstream connection exists (then the scripted server has nothing to write on).  A complete response head that
+        # Parser::parseResponseHeaders refuses makes the proxy answer 502 and close the client's socket: from then on
+        # nothing more of the request is owed (C12.settled / Proxy.upHeadOk).
+        early = {}
+        if rng.random() < 0.35:
+            ans = pick(rng, EARLY_ANSWERS)
+            j0 = rng.randrange(len(segs))
+            for k, piece in enumerate(ans):
+                early.setdefault(min(j0 + k * rng.randrange(1, 3), len(segs) - 1), []).append(piece)
         for j, s in enumerate(segs):
             evs.append("feed:" + hx(s))
-            if rng.random() < 0.4 or early == j:
+            if rng.random() < 0.4 or j in early:
                 evs.append("turn")
-            if early == j:
-                uh = pick(rng, [b"HTTP/1.1 100 Continue\r\n\r\n", b"HTTP/1.1 200 OK\r\nX-Up: v\r\n\r\npartial", b"HTTP/1.0 500 Oops\r\n\r\n", b"HTTP/1.1 200 OK\r\n"])
-                evs += ["up:" + hx(uh), "turn"]
+            for piece in early.get(j, []):
+                evs += ["up:" + hx(piece), "turn"]
         evs += ["turn", "turn"]
         yield ("proxy", " ".join(evs))
 
